@@ -161,8 +161,13 @@ func ruleFreshCancelPerReservation(c *chk.Ctx, d *dispatchModel) {
 	}
 	var wcs []*ssa.Call
 	okSrc := true
+	sameVal := func(v ssa.Value) bool { return v == mu.Value || ir.SameValue(v, mu.Value) }
+	nonNilHere := ir.ProvesNonNil(c.P.CondsWithin(mu, mu.Parent()), sameVal)
 	for _, src := range c.P.SourcesStop(mu.Value, isWC) {
 		if !isWC(src) {
+			if ir.IsNilConst(src) && nonNilHere {
+				continue // "no cancel function" from a helper, excluded by the != nil test at the reservation
+			}
 			okSrc = false
 			continue
 		}
@@ -172,18 +177,38 @@ func ruleFreshCancelPerReservation(c *chk.Ctx, d *dispatchModel) {
 	why := "the stored cancel function does not come from exactly one context.WithCancel call"
 	if fresh {
 		wc := wcs[0]
-		// inside the function of the WithCancel call: from (the anchor of) a reservation, the next
-		// reservation is not reachable without passing the WithCancel call again
-		for _, a := range anchorsIn(c, mu, wc.Parent()) {
-			if !ir.InstrDominates(wc, a) && a != ssa.Instruction(wc) {
+		// in the smallest function that contains both the WithCancel call and the reservation
+		// (directly or through private helpers): the call precedes the reservation, and from a
+		// reservation the next one is not reachable without passing the WithCancel call again
+		root := c.P.RegionRoot(wc.Parent(), mu.Parent())
+		if root == nil {
+			root = wc.Parent()
+		}
+		wAnchors := anchorsIn(c, wc, root)
+		isW := func(i ssa.Instruction) bool {
+			for _, w := range wAnchors {
+				if i == w {
+					return true
+				}
+			}
+			return false
+		}
+		for _, a := range anchorsIn(c, mu, root) {
+			dominated := isW(a)
+			for _, w := range wAnchors {
+				if ir.InstrDominates(w, a) {
+					dominated = true
+				}
+			}
+			if !dominated {
 				fresh, why = false, "the WithCancel call does not precede the reservation on every path"
 			}
-			again, _ := ir.Reaches(a, func(i ssa.Instruction) bool { return i == a }, func(i ssa.Instruction) bool { return i == ssa.Instruction(wc) })
-			if again {
+			again, _ := ir.Reaches(a, func(i ssa.Instruction) bool { return i == a }, isW)
+			if again && !isW(a) {
 				fresh, why = false, "a second reservation can be made without creating a new cancellable context (the cancel function is shared)"
 			}
 		}
-		if len(anchorsIn(c, mu, wc.Parent())) == 0 {
+		if len(anchorsIn(c, mu, root)) == 0 || len(wAnchors) == 0 {
 			fresh, why = false, "the reservation is not reached from the function that creates the cancellable context"
 		}
 		// and that function is itself entered once per reservation (not once per batch): its call
@@ -930,7 +955,7 @@ func ruleErrorValuesImmutable(c *chk.Ctx) {
 				return
 			}
 			n++
-			b := ir.NormCell(base)
+			b := c.P.Canon(base)
 			_, fresh := b.(*ssa.Alloc)
 			c.Check(fresh, "PROV.errimmutable", f, "stores into an Error go to a fresh value", st.Pos(), "the Error written ("+what+") is allocated in this function", "an existing Error ("+what+") is modified in place: a sentinel shared by every request, the handler's own error or the error object received from the peer would not arrive as it was produced")
 		})
@@ -1034,6 +1059,16 @@ func rulePayloadSentVerbatim(c *chk.Ctx) {
 					}
 					if cc.IsInvoke() && (cc.Method.Name() == "Write" || cc.Method.Name() == "WriteString") {
 						continue
+					}
+					if callee != nil && callee.Pkg != nil {
+						// verbatim copies carry the record on
+						switch callee.Pkg.Pkg.Path() + "." + callee.Name() {
+						case "bytes.Clone", "slices.Clone", "slices.Concat", "slices.Grow", "slices.Clip":
+							if v, isV := x.(ssa.Value); isV {
+								follow(v)
+							}
+							continue
+						}
 					}
 					rewrites := false
 					res := cc.Signature().Results()
@@ -1207,12 +1242,12 @@ func ruleIsErrClosingTable(c *chk.Ctx) {
 				return gl.Name(), false, true
 			}
 		}
-		if x, eq, ok := ir.NilCompare(v); ok && x == ssa.Value(f.Params[0]) {
+		if x, eq, ok := ir.NilCompare(v); ok && (x == ssa.Value(f.Params[0]) || c.P.Canon(x) == ssa.Value(f.Params[0])) {
 			return "nonnil", eq, true
 		}
 		return "", false, false
 	}
-	if len(missing) == 0 && identity == "" && len(c.P.Ext(f)) == 1 {
+	if len(missing) == 0 && identity == "" {
 		bad := ""
 		for _, nn := range []bool{false, true} {
 			for _, a := range []bool{false, true} {
@@ -1220,7 +1255,7 @@ func ruleIsErrClosingTable(c *chk.Ctx) {
 					if !nn && (a || b) {
 						continue // errors.Is(nil, x) is false
 					}
-					got, ok := ir.EvalBool(f, atomOf, map[string]bool{"nonnil": nn, "ErrClosed": a, "net.ErrClosed": b})
+					got, ok := c.P.EvalBool(f, atomOf, map[string]bool{"nonnil": nn, "ErrClosed": a, "net.ErrClosed": b})
 					if !ok {
 						bad = "cannot evaluate the function's decision"
 					} else if got != (nn && (a || b)) {
@@ -1274,7 +1309,7 @@ func ruleRequestPredicateTable(c *chk.Ctx) {
 		for _, m := range []bool{false, true} {
 			for _, e := range []bool{false, true} {
 				for _, r := range []bool{false, true} {
-					got, ok := ir.EvalBool(f, atomOf, map[string]bool{"M": m, "E": e, "R": r})
+					got, ok := c.P.EvalBool(f, atomOf, map[string]bool{"M": m, "E": e, "R": r})
 					if !ok {
 						bad = "the decision involves something other than emptiness of the method and presence of the error/result members"
 					} else if got != (m && !e && !r) {
@@ -1373,7 +1408,7 @@ func rulePendingTablesNeverReplaced(c *chk.Ctx, fields ...*types.Var) {
 			fa, _ := st.Addr.(*ssa.FieldAddr)
 			fresh := false
 			if fa != nil {
-				_, fresh = ir.NormCell(fa.X).(*ssa.Alloc)
+				_, fresh = c.P.Canon(fa.X).(*ssa.Alloc)
 			}
 			c.Check(fresh, "WHO.tables", st.Parent(), "table "+fv.Name()+" assigned only at construction", st.Pos(), "the table is stored into a freshly allocated owner", "the table of pending responses "+fv.Name()+" is replaced on a live owner: entries still pending are orphaned — their waiters find no entry to complete and their callers never return")
 		}
@@ -1623,29 +1658,58 @@ func ruleAccessorDefaults(c *chk.Ctx, rule string, pkgs ...*ssa.Package) {
 				continue
 			}
 			type fieldRet struct {
-				r  *ssa.Return
-				fa *ssa.FieldAddr
-				v  ssa.Value
+				r     *ssa.Return
+				fa    *ssa.FieldAddr
+				v     ssa.Value
+				alts  [][]ir.Cond // for a value selected by a phi: the outcomes along its edges
+				chain []ssa.Value // the phis it passed through
 			}
 			var fieldRets []fieldRet
 			hasDefault := false
+			var expand func(r *ssa.Return, v ssa.Value, chain []ssa.Value, alts [][]ir.Cond, depth int)
+			expand = func(r *ssa.Return, v ssa.Value, chain []ssa.Value, alts [][]ir.Cond, depth int) {
+				if phi, isPhi := v.(*ssa.Phi); isPhi && depth < 4 {
+					for i, e := range phi.Edges {
+						pred := phi.Block().Preds[i]
+						var ealts [][]ir.Cond
+						for _, alt := range ir.CondAltsAt(pred) {
+							ealts = append(ealts, append(append([]ir.Cond{}, alt...), ir.EdgeConds(pred, phi.Block())...))
+						}
+						if len(ealts) == 0 {
+							ealts = [][]ir.Cond{ir.EdgeConds(pred, phi.Block())}
+						}
+						// outcomes established further out (about the phi itself) hold for this edge too
+						var merged [][]ir.Cond
+						if alts == nil {
+							merged = ealts
+						} else {
+							for _, a := range alts {
+								for _, b := range ealts {
+									merged = append(merged, append(append([]ir.Cond{}, a...), b...))
+								}
+							}
+						}
+						expand(r, e, append(append([]ssa.Value{}, chain...), phi), merged, depth+1)
+					}
+					return
+				}
+				if u, isU := v.(*ssa.UnOp); isU && u.Op == token.MUL {
+					if fa, isFA := u.X.(*ssa.FieldAddr); isFA && ir.FieldOwner(fa) == named && fa.X == ssa.Value(f.Params[0]) {
+						fieldRets = append(fieldRets, fieldRet{r: r, fa: fa, v: v, alts: alts, chain: chain})
+						return
+					}
+				}
+				if !ir.IsNilConst(v) {
+					hasDefault = true
+				}
+			}
 			for _, r := range ir.Returns(f) {
 				v := ir.ReturnResult(r, 0)
-				leafs := []ssa.Value{v}
-				if phi, isPhi := v.(*ssa.Phi); isPhi {
-					leafs = phi.Edges
+				var base [][]ir.Cond
+				if _, isPhi := v.(*ssa.Phi); isPhi {
+					base = ir.CondAltsAt(r.Block())
 				}
-				for _, lv := range leafs {
-					if u, isU := lv.(*ssa.UnOp); isU && u.Op == token.MUL {
-						if fa, isFA := u.X.(*ssa.FieldAddr); isFA && ir.FieldOwner(fa) == named && fa.X == ssa.Value(f.Params[0]) {
-							fieldRets = append(fieldRets, fieldRet{r, fa, lv})
-							continue
-						}
-					}
-					if !ir.IsNilConst(lv) {
-						hasDefault = true
-					}
-				}
+				expand(r, v, nil, base, 0)
 			}
 			if !hasDefault || len(fieldRets) == 0 {
 				continue
@@ -1654,6 +1718,14 @@ func ruleAccessorDefaults(c *chk.Ctx, rule string, pkgs ...*ssa.Package) {
 			for _, fr := range fieldRets {
 				fv := ir.FieldVar(fr.fa)
 				same := func(v ssa.Value) bool {
+					if v == fr.v {
+						return true
+					}
+					for _, ph := range fr.chain {
+						if v == ph {
+							return true
+						}
+					}
 					u, isU := v.(*ssa.UnOp)
 					if !isU || u.Op != token.MUL {
 						return false
@@ -1667,6 +1739,9 @@ func ruleAccessorDefaults(c *chk.Ctx, rule string, pkgs ...*ssa.Package) {
 				}
 				proved := true
 				alts := ir.CondAltsAt(blk)
+				if fr.alts != nil {
+					alts = fr.alts
+				}
 				if len(alts) == 0 {
 					proved = false
 				}
